@@ -20,6 +20,7 @@ type Clause struct {
 	Props []string // property ids this clause serves (nil = function-level set)
 	Line  int
 	Label string // optional label: `ensures [name] expr`
+	Uses  []string // lemmas assumed only for this clause's obligations: `[uses=lemma]`
 }
 
 type LoopContract struct {
@@ -194,6 +195,8 @@ func (cs *Contracts) parseFile(path string) error {
 					for _, w := range strings.Fields(inside) {
 						if regexp.MustCompile(`^C[0-9]+$`).MatchString(w) {
 							c.Props = append(c.Props, w)
+						} else if strings.HasPrefix(w, "uses=") {
+							c.Uses = append(c.Uses, strings.Split(w[5:], ",")...)
 						} else {
 							c.Label = w
 						}
